@@ -7,6 +7,7 @@ from ..gen import J
 from . import lincommon as lc
 
 PROP = "C07"
+HOSTILE = ('scale', 'mean')
 MONITORS = ("WF", "DENS", "CACHE")
 REQUIRED_MONITORS = ("CACHE",)
 ANCHORS = [("conditional.py", "ConditionalGaussianPDF.affine_joint_transformation"),
